@@ -236,7 +236,7 @@ func (ck *Check) verifyFunctions(filter func(c *Contract) bool) {
 		x.lemmaText = ck.lemmaTexts(x, c.Lemmas)
 		ck.execs = append(ck.execs, x)
 		for _, vc := range x.vcs {
-			if vc.Prop != "" && vc.Prop != ck.Prop {
+			if vc.Prop != "" && vc.Prop != ck.Prop && !alsoTag(ck.Prop, vc.Prop) {
 				continue
 			}
 			jobs = append(jobs, job{x, vc})
@@ -289,4 +289,18 @@ func init() {
 		}
 		os.Exit(0)
 	}
+}
+
+// alsoTags: obligations tagged for one property that another property's
+// check depends on (C08: a rejected Reconfigure presupposes that every
+// invalid configuration is rejected, which are C04's obligations).
+var alsoTags = map[string][]string{"C08": {"C04"}}
+
+func alsoTag(prop, tag string) bool {
+	for _, t := range alsoTags[prop] {
+		if t == tag {
+			return true
+		}
+	}
+	return false
 }
